@@ -753,6 +753,9 @@ class Inliner:
                         continue
                     if isinstance(p, ast.Compare) and len(p.ops) == 1 and isinstance(p.ops[0], (ast.Is, ast.IsNot)) and isinstance(p.comparators[0], ast.Constant) and p.comparators[0].value is None:
                         continue
+                    if isinstance(p, ast.Call) and isinstance(p.func, ast.Name) and p.func.id == "__item__" and len(p.args) == 2 and p.args[0] is n \
+                            and isinstance(p.args[1], ast.Constant) and any(b in ("NamedTuple", "typing.NamedTuple") for b in ci.ext_bases):
+                        continue
                     # a NamedTuple helper unpacked into all of its fields: `a, b, c = v`
                     nfields = len([x for x in ci.node.body if isinstance(x, ast.AnnAssign) and isinstance(x.target, ast.Name)])
                     if any(b in ("NamedTuple", "typing.NamedTuple") for b in ci.ext_bases) and isinstance(p, ast.Assign) and p.value is n and len(p.targets) == 1 \
@@ -781,6 +784,16 @@ class Inliner:
                 if isinstance(node.value, ast.Name) and node.value.id in objs:
                     return ast.copy_location(ast.Name(id=f"{node.value.id}__{node.attr}", ctx=node.ctx), node)
                 return node
+
+            def visit_Call(self, node):
+                # `__item__(v, k)` (element k of an unpacked NamedTuple helper): field k
+                if isinstance(node.func, ast.Name) and node.func.id == "__item__" and len(node.args) == 2 and isinstance(node.args[0], ast.Name) and node.args[0].id in objs \
+                        and isinstance(node.args[1], ast.Constant) and isinstance(node.args[1].value, int):
+                    ci = objs[node.args[0].id]
+                    fields = [x.target.id for x in ci.node.body if isinstance(x, ast.AnnAssign) and isinstance(x.target, ast.Name)]
+                    if 0 <= node.args[1].value < len(fields):
+                        return ast.copy_location(ast.Name(id=f"{node.args[0].id}__{fields[node.args[1].value]}", ctx=ast.Load()), node)
+                return self.generic_visit(node)
         return [ast.fix_missing_locations(T().visit(b)) for b in body]
 
     def expr_value_of(self, callee) -> Optional[ast.AST]:
